@@ -112,6 +112,11 @@ def build(cs):
     f.comment = ''
     c.long_name = ''
     f.nint = np.int32(7)
+    if cs.get('flavour') == 'NETCDF4':
+        # Python integers beyond 32 bits are attribute values too (only the
+        # NETCDF4 flavour has a 64-bit integer type)
+        f.created_ms = 1727400000000
+        f.nbytes = 2 ** 31
     f.rflt = 3.25
     f.iarr = np.array([4, 5, 6], 'i')
     f.farr = np.array([0.5, 0.25], 'd')
